@@ -321,10 +321,19 @@ def _sections(draw, ctx):
             idxs = [7] if mask == 0 else [i for i in range(5) if mask >> i & 1]
             if draw(st.integers(0, 4)) == 0:
                 idxs.append(6)
+            if draw(st.integers(0, 5)) == 0:
+                # likewise for note lines: index 8 / 9 in the very same layout
+                lines.append([f"{lp}{tz}{tick} = N {draw(st.sampled_from('89'))} {lz}{ln}{rp}", "X", None])
             for i in idxs:
                 lines.append([f"{lp}{tz}{tick} = N {i} {lz}{ln}{rp}", "N", [tick, i, ln]])
         elif what == "S":
             ln = draw(st.integers(0, 500))
+            if draw(st.integers(0, 3)) == 0:
+                # a line of another shape that differs from the phrase line in nothing but its index digit (same
+                # padding, same tick, same length), right before it or a few lines earlier
+                k = draw(st.sampled_from("013456789"))
+                lines.insert(draw(st.sampled_from([len(lines), len(lines), max(0, len(lines) - 3), 0])),
+                             [f"{lp}{tz}{tick} = S {k} {ln}{rp}", "X", None])
             lines.append([f"{lp}{tz}{tick} = S 2 {ln}{rp}", "S", [tick, ln]])
             if draw(st.integers(0, 5)) == 0:      # an identical line again: two phrases, not one
                 lines.append(list(lines[-1]))
@@ -412,7 +421,9 @@ def check_section(ctx: Ctx, case) -> None:
     bad = [x[0] for x in lines if x[1] == "X"]
     why = C.reports_match(C.records_of(recs, "chartparse.track"), bad)
     if why:
-        ctx.fail("section-warnings", f"non-members {bad} are not reported exactly once each: {why}", rc)
+        # Whether a line that yields nothing is REPORTED is C14's statement, not C07's ("never produce an event
+        # of these kinds"): counted here, judged there.  (C07 used to fail on it: over-reach, see DESIGN 9.)
+        ctx.classes["nonmember_reporting_differs_not_judged_here"] += 1
     nx = len(bad)
     ctx.note(rc["lines"], nontrivial=nx >= 1 and len(lines) - nx >= 2,
              classes=[f"nonmembers_{min(nx, 4)}"], sample={"lines": rc["lines"][:12]})
